@@ -20,6 +20,18 @@ def main():
     if rc != 0:
         print('setup: Coq build failed')
         sys.exit(1)
+    # audit: nothing admitted, no axiom declared, no checker switched off
+    import re, glob
+    bad = []
+    pat = re.compile(r'\b(Admitted|admit|Axiom|Axioms|Parameter|Parameters|Conjecture|Abort All|Unset Guard Checking|Unset Positivity Checking|Unset Universe Checking|bypass_check|Admit Obligations)\b|-type-in-type|-impredicative-set')
+    for f in sorted(glob.glob(os.path.join(common.COQ, '*.v'))):
+        txt = re.sub(r'\(\*.*?\*\)', '', open(f).read(), flags=re.S)
+        for m in pat.finditer(txt):
+            bad.append('%s: %s' % (os.path.basename(f), m.group(0)))
+    if bad:
+        print('setup: AUDIT FAILED: ' + '; '.join(bad[:10]))
+        sys.exit(1)
+    print('audit: no Admitted/admit/Axiom/Parameter/Conjecture and no checker switch in coq/*.v')
     exe, log = common.build_model()
     print('model driver:', exe)
     for v in ('plain', 'asan', 'count'):
